@@ -32,6 +32,8 @@ type Run struct {
 	points []point
 	// Diverged is set when a replayed choice did not fit (out of range, or label mismatch).
 	Diverged string
+	// Attempt counts earlier executions of this same prefix that diverged (see MaxRetry).
+	Attempt int
 	// Foreign is set for the root execution in shards other than 0: it must be executed (its
 	// choice points define the subtrees) but belongs to shard 0 for counting and judging.
 	Foreign bool
@@ -106,7 +108,13 @@ func (r *Run) Used() Bounds {
 //go:norace
 func Replay(choices []int) *Run { return &Run{prefix: choices} }
 
+// MaxRetry > 0 lets a check opt in to re-running an execution whose replayed prefix diverged (a wall-clock effect
+// outside the scheduler's control) up to MaxRetry times before the divergence stands; the callback must then not
+// judge a run with Diverged != "" and Attempt < MaxRetry. Persistent divergence is still reported by the callback.
+var MaxRetry = 0
+
 type Stats struct {
+	Retried    int64
 	Executions int64
 	Points     int64
 	MaxDepth   int
@@ -118,10 +126,11 @@ type Stats struct {
 // The parent's choice and label slices are shared (immutable) between its children, so the
 // pending set costs O(children) and not O(children x depth).
 type item struct {
-	base   []int
-	labels []string
-	i, alt int
-	root   bool
+	base    []int
+	labels  []string
+	i, alt  int
+	root    bool
+	attempt int
 }
 
 func (it item) prefix() []int {
@@ -164,7 +173,7 @@ func ExploreShard(b Bounds, checkLabels bool, shard, n int, exec func(r *Run) bo
 		it := stack[len(stack)-1]
 		stack = stack[:len(stack)-1]
 		pre := it.prefix()
-		r := &Run{prefix: pre, labels: it.prefixLabels()}
+		r := &Run{prefix: pre, labels: it.prefixLabels(), Attempt: it.attempt}
 		root := it.root
 		r.Foreign = root && shard != 0
 		cont := exec(r)
@@ -178,6 +187,12 @@ func ExploreShard(b Bounds, checkLabels bool, shard, n int, exec func(r *Run) bo
 		}
 		if !cont {
 			return st
+		}
+		if r.Diverged != "" && it.attempt < MaxRetry {
+			st.Retried++
+			it.attempt++
+			stack = append(stack, it)
+			continue
 		}
 		// children: deviate at any point past the prefix
 		var used Bounds
